@@ -51,12 +51,16 @@ pub enum SOp {
     TransferOwnership { to: u8, auth: AuthVar, abort: Option<u16> },
     /// ledgers close (sequence and time advance): nothing the service holds may depend on it
     Advance { dseq: u32 },
+    /// harness action: a holder grants the gas service itself an allowance on a gas token (standing
+    /// pre-approval).  The service never had a use for it; a payment still needs the spender's authorisation
+    ApproveService { holder: u8, token: u8, amount: u16 },
     Resubmit { k: u16 },
 }
 
 impl SOp {
     fn kind(&self) -> &'static str {
         match self {
+            SOp::ApproveService { .. } => "approve_service",
             SOp::PayGas { .. } => "pay_gas",
             SOp::AddGas { .. } => "add_gas",
             SOp::Collect { .. } => "collect_fees",
@@ -267,6 +271,19 @@ impl SExec {
             SOp::Advance { dseq } => {
                 crate::common::advance_ledgers(&self.sim, ctx, *dseq);
             }
+            SOp::ApproveService { holder, token, amount } => {
+                let (hi, t) = (pi(*holder), *token as usize % NTOK);
+                let exp = self.sim.seq() + 5000;
+                self.sim.setup_all_auths();
+                let r = self.sim.query(&self.tokens[t].clone(), "approve", (self.p[hi].clone(), gas.clone(), *amount as i128, exp).into_val(&env));
+                self.sim.set_auth(&[]);
+                let _ = self.sim.drain_events();
+                if r.is_err() {
+                    ctx.harness(format!("token {} refused an approve", t));
+                    return;
+                }
+                ctx.count("probe.holder_pre_approved_the_gas_service");
+            }
             SOp::Resubmit { .. } => {}
         }
     }
@@ -431,6 +448,9 @@ impl World for WorldS {
                 _ => SOp::Resubmit { k: rng.below(64) as u16 },
             };
             ops.push(op);
+            if rng.chance(1, 15) {
+                ops.push(SOp::ApproveService { holder: rng.range(2, 3) as u8, token: rng.below(3) as u8, amount: *rng.pick(&[1u16, 100, 1000, 60_000]) });
+            }
             if rng.chance(1, 12) {
                 ops.push(SOp::Advance { dseq: *rng.pick(&[1u32, 17, 100, 20_000, 1_100_000]) });
             }
@@ -489,7 +509,7 @@ impl World for WorldS {
                 let g = ex.gas.clone();
                 crate::surface::probe_unlisted(ctx, &mut ex.sim, &g, "axelar-gas-service", &addrs, &["C14", "C07", "C06"], &["C14", "C07", "C06"]);
             }
-            if !matches!(op, SOp::Resubmit { .. } | SOp::Advance { .. }) {
+            if !matches!(op, SOp::Resubmit { .. } | SOp::Advance { .. } | SOp::ApproveService { .. }) {
                 ex.history.push(op.clone());
             }
             if !ctx.stopped() {
